@@ -14,7 +14,7 @@ EXPLANATION = (
     "buffer; (R5) the MVCC visibility predicates have exactly the decision tables created<=view, deleted>view, own "
     "writes visible unless deleted; (R6) the session passes its (start epoch, tx id) context to the planner and to the "
     "versioned accessors, and the context of an open transaction is its start epoch; (R7) the session's point lookups and "
-    "neighbour listings reach the store only through versioned accessors; (R8) every context-aware operator consumes its "
+    "neighbour listings reach the store only through versioned accessors; (R8b) a context-aware operator keeps the result of a raw id enumeration only after the per-id versioned check or on the path where it has no viewing epoch; (R8) every context-aware operator consumes its "
     "(epoch, tx id) in the versioned store calls it makes. (R9) every call that hands a transaction context on takes the viewing epoch from the same context as the transaction id. "
     "It does not execute any read.")
 ASSUMPTIONS = [
@@ -292,6 +292,51 @@ def run(ctx):
             ctx.ob("R8", "%s->%s" % (tn, acc), ok,
                    what="%s does not read/write the store through LpgStore::%s with its own context (%s): it was handed the session's "
                         "snapshot but decides visibility without it" % (tn, acc, ", ".join(flds)), where=P.adt(tn)["file"])
+
+    # ---- R8b: raw id enumerations reach an operator's buffer only where no context was given
+    # The enumerators of the store (node_ids, nodes_by_label) answer at the store's own clock / from single-version
+    # indexes. An operator that has a viewing epoch may keep their result only after the per-id versioned check; the
+    # unfiltered result is acceptable only on the path where viewing_epoch is None (no transaction context at all).
+    RAW = ("node_ids", "nodes_by_label", "all_node_ids")
+    n8b = 0
+    for tn in sorted(R8):
+        if "get_node_versioned" not in R8[tn]:
+            continue
+        for m in P.methods_of(tn):
+            for g in P.family(m):
+                if g.kind == "closure":
+                    continue
+                gx = None
+                D = g.defs()
+                for bi, b in enumerate(g.blocks):
+                    if b["cl"]:
+                        continue
+                    for pl, rv, ln in b["s"]:
+                        if rv[0] == "dead" or not any(isinstance(p_, str) and p_.startswith("f:") and p_.endswith(":" + P.adt(tn)["id"]) for p_ in pl):
+                            continue
+                        gx = gx or FlowCx(P, g)
+                        if not any(x.startswith("call:LpgStore::") and x.split("::")[-1] in RAW for x in gx._tags_rv_public(rv)):
+                            continue
+                        # split the value into its definitions (one per arm of the match / if that produced it)
+                        work = [(bi, rv)]
+                        if rv[0] == "use" and isinstance(rv[1], list) and len(rv[1]) > 1 and isinstance(rv[1][1], list) and len(rv[1][1]) == 1:
+                            ds = D.get(rv[1][1][0], [])
+                            if ds:
+                                work = [(d_[0], d_[3]) for d_ in ds]
+                        for k, (db, drv) in enumerate(work):
+                            tg = gx._tags_rv_public(drv) if drv[0] != "call" else set().union(*[gx.tags(a) for a in drv[1]["args"]] or [set()]) | {"call:" + "::".join(callee_name(drv[1]).split("::")[-2:])}
+                            raw = any(x.startswith("call:LpgStore::") and x.split("::")[-1] in RAW for x in tg)
+                            if not raw:
+                                continue
+                            n8b += 1
+                            checked = any(x == "call:LpgStore::get_node_versioned" for x in tg)
+                            noctx = any(x[0] == "variant" and x[1] == "core::option::Option" and x[2] == "None" and _has(x[3], "cell:%s.viewing_epoch" % tn)
+                                        for x in gx.facts_at(db))
+                            ctx.ob("R8b", "%s::%s#raw-ids[%d]" % (tn, g.id.split("::")[-1], k), checked or noctx,
+                                   what="%s keeps the result of a raw id enumeration (node_ids / nodes_by_label answer at the store's own clock) "
+                                        "on a path where it may hold a viewing epoch, without the per-id versioned check: a transaction's scan "
+                                        "shows nodes committed after it began" % short_id(g.id), where=g.loc(ln))
+    ctx.floor("R8b", n8b, 1, "raw id enumerations stored by context-aware operators")
 
     # get_transaction_context: inside a transaction the epoch is the transaction's start epoch
     rows = []
